@@ -228,3 +228,29 @@ func C02ListOfOpaque() {
 	zzRoundTrip(v, "list-of-opaque["+sig+"]")
 	sym.Reach("list-of-opaque-done")
 }
+
+// C02TwoOpaques: two opaque values of struct/tuple signatures alive at the same time (inside one
+// list, and from two consecutive decodes): decoding the second must not disturb the first.
+func C02TwoOpaques() {
+	k1 := []int{3, 5, 7}[sym.Choose("sig1", 3)]
+	k2 := []int{3, 5, 7}[sym.Choose("sig2", 3)]
+	sig1, data1, _ := zzData(k1)
+	sig2, data2, _ := zzData(k2)
+	v := List([]Value{Opaque(sig1, data1), Opaque(sig2, data2)})
+	zzRoundTrip(v, "two-opaques["+sig1+","+sig2+"]")
+	// consecutive decodes
+	var b1, b2 bytes.Buffer
+	Opaque(sig1, data1).Write(&b1)
+	Opaque(sig2, data2).Write(&b2)
+	enc1 := append([]byte{}, b1.Bytes()...)
+	first, err := NewValue(bytes.NewReader(enc1))
+	sym.Assert(err == nil, "consecutive/first-decodes")
+	_, err = NewValue(bytes.NewReader(b2.Bytes()))
+	sym.Assert(err == nil, "consecutive/second-decodes")
+	if first != nil {
+		var again bytes.Buffer
+		first.Write(&again)
+		sym.Assert(sym.EqBytes(again.Bytes(), enc1), "consecutive/first-value-changed-by-second-decode")
+	}
+	sym.Reach("two-opaques-done")
+}
